@@ -286,8 +286,62 @@ def prog(env, case):
             env.check_rel(q, '>=', "example %s: class LMI of %s is violated by a real run" % (name, type(f).__name__),
                           signature=tag + ":lmi:" + type(f).__name__, timeout_ms=case.get('timeout_ms', 60000))
             n_claims += 1
+    # (3) the model is the DOCUMENTED method: the metric's value on the run equals the performance of an independent run
+    #     of the recurrences stated in the example's docstring, on the same real member from the same starting point
+    if name in DOCUMENTED and pep.list_of_points and pep.list_of_performance_metrics:
+        x0v = run.point(pep.list_of_points[0])[0]
+        ref = documented(name, vals, case['n'], functions[0][1], x0v)
+        got = run.expr(pep.list_of_performance_metrics[0])
+        env.check_rel(got - ref, '==', "example %s (n=%d): the modelled method is not the documented one - the metric on a "
+                      "real run differs from the documented recurrences' performance" % (name, case['n']),
+                      signature=tag + ":documented-method", timeout_ms=case.get('timeout_ms', 60000))
+        n_claims += 1
     env.reachable("real-run hypotheses")
     return "%s n=%d: %d constraints hold on every real run of the family" % (name, case['n'], n_claims)
+
+
+DOCUMENTED = {'gradient_descent', 'gradient_descent_qg', 'heavy_ball', 'accelerated_gradient_convex', 'halpern',
+              'krasnoselskii_mann'}
+
+
+def documented(name, vals, n, fam, x0):
+    """performance of the method as the example's docstring states it (written from the docstrings, independently of the
+    example bodies), on the 1-D real member `fam` started at x0"""
+    G = lambda x: fam.grad([x], None, 'doc')[0]
+    V = lambda x: fam.value([x])
+    if name in ('gradient_descent', 'gradient_descent_qg'):
+        # x_{t+1} = x_t - gamma f'(x_t);  f(x_n) - f_*
+        x = x0
+        for t in range(n):
+            x = x - vals['gamma'] * G(x)
+        return V(x) - V(fam.argmin(None)[0])
+    if name == 'heavy_ball':
+        # x_{t+1} = x_t - alpha f'(x_t) + beta (x_t - x_{t-1}), x_{-1} = x_0;  f(x_n) - f_*
+        prev, x = x0, x0
+        for t in range(n):
+            prev, x = x, x - vals['alpha'] * G(x) + vals['beta'] * (x - prev)
+        return V(x) - V(fam.argmin(None)[0])
+    if name == 'accelerated_gradient_convex':
+        # x_{t+1} = y_t - 1/L f'(y_t);  y_{t+1} = x_{t+1} + t/(t+3) (x_{t+1} - x_t);  f(x_n) - f_*
+        x, y = x0, x0
+        for t in range(n):
+            xn = y - 1 / vals['L'] * G(y)
+            y = xn + t / (t + 3) * (xn - x)
+            x = xn
+        return V(x) - V(fam.argmin(None)[0])
+    if name == 'halpern':
+        # x_{t+1} = 1/(t+2) x_0 + (1 - 1/(t+2)) A x_t;  ||x_n - A x_n||^2
+        x = x0
+        for t in range(n):
+            x = 1 / (t + 2) * x0 + (1 - 1 / (t + 2)) * G(x)
+        return (x - G(x)) * (x - G(x))
+    if name == 'krasnoselskii_mann':
+        # x_{t+1} = (1 - gamma) x_t + gamma A x_t;  ||(x_n - A x_n) / 2||^2
+        x = x0
+        for t in range(n):
+            x = (1 - vals['gamma']) * x + vals['gamma'] * G(x)
+        return (x - G(x)) * (x - G(x)) / 4
+    raise KeyError(name)
 
 
 def cases(tier):
@@ -298,6 +352,11 @@ def cases(tier):
     names = quick if tier == 'quick' else list(EXAMPLES)
     for nm in names:
         for n in ((1,) if tier == 'quick' else (1, 2)):
+            cs.append(dict(id="%s-n%d" % (nm, n), example=nm, n=n, input_zero_tests='generic', output_branches='first',
+                           timeout_ms=60000 if tier == 'quick' else 180000))
+    # momentum terms only act from the second (heavy ball) / third (accelerated gradient) iterate on
+    for nm, n in (('heavy_ball', 2), ('accelerated_gradient_convex', 3)):
+        if not any(c['id'] == "%s-n%d" % (nm, n) for c in cs):
             cs.append(dict(id="%s-n%d" % (nm, n), example=nm, n=n, input_zero_tests='generic', output_branches='first',
                            timeout_ms=60000 if tier == 'quick' else 180000))
     return cs
@@ -312,8 +371,10 @@ def main(tier, only=None):
         assumptions=["split form: the claim is 'for every CERTIFIED bound': (1) C01's identity on the example's own model under "
                      "the KKT contract + (2) every real run of the family is a feasible point of the model; the concrete "
                      "number a numeric solver returns (its tolerance) is outside",
-                     "real runs follow the model's own update equations on 1-D members of C03's families: an example that "
-                     "models another method than its docstring says is not detected here",
+                     "real runs follow the model's own update equations on 1-D members of C03's families; for %d explicit "
+                     "examples (%s) the metric on the run is also proved equal to an independent run of the docstring's "
+                     "recurrences - for the other examples a model of another method than documented is not detected"
+                     % (len(DOCUMENTED), ", ".join(sorted(DOCUMENTED))),
                      "implicit steps are quantified over ALL admissible (sub)gradients (membership hypotheses)"],
         bounds=dict(examples=len(cs), iterations="n = 1" if tier == 'quick' else "n <= 2", members="1-D families",
                     outside="other examples (those using numpy numerics on parameters, line searches, stochastic / "
